@@ -15,7 +15,7 @@ import (
 
 func init() {
 	Registry["C03"] = Set{
-		Explanation: "Decides the structural clauses of mailbox ordering: O1 every place that selects a mailbox queue from a message priority implements the same table (High->System, Max->Urgent, everything else->Main) — value sets of the switched priority are computed per incoming edge of the queue phi; O1b every push of a message whose Type is Exit or Inspect targets Urgent (meta mailbox: exit and inspect -> system, regular and request -> main); O1c down notifications are routed with Priority High; O1d log messages go to the Log queue; O2 in every ProcessRun implementation found through gen.ProcessBehavior and in the meta handler, the Pop of a lower class is dominated by the failure edge of the Pop of the next higher class (Urgent, System, Main, Log), and after any successful Pop no other Pop is reachable before Pop(Urgent) (one message per scan, restart from the top); O3 queue discipline: head is written only by an atomic swap in Push, tail only by the consumer in Pop, next only by the pusher that obtained the old head. Added while probing: O2 holds for every Pop site (several sites per class are allowed); O3 Pop advances tail by exactly one node (tail.next, once per call) and returns that node's value. O4 = C13.F5 (a compressed frame keeps the receive-queue selector of the frame it wraps). O5 the one-shot priority / importance a process lends itself for one send (SendWithPriority, SendImportant, CallWithPriority, CallImportant) is put back on every path, also when the send fails. O6 = C13.F7.",
+		Explanation: "Decides the structural clauses of mailbox ordering: O1 every place that selects a mailbox queue from a message priority implements the same table (High->System, Max->Urgent, everything else->Main) — value sets of the switched priority are computed per incoming edge of the queue phi; O1b every push of a message whose Type is Exit or Inspect targets Urgent (meta mailbox: exit and inspect -> system, regular and request -> main); O1c down notifications are routed with Priority High; O1d log messages go to the Log queue; O2 in every ProcessRun implementation found through gen.ProcessBehavior and in the meta handler, the Pop of a lower class is dominated by the failure edge of the Pop of the next higher class (Urgent, System, Main, Log), and after any successful Pop no other Pop is reachable before Pop(Urgent) (one message per scan, restart from the top); O3 queue discipline: head is written only by an atomic swap in Push, tail only by the consumer in Pop, next only by the pusher that obtained the old head. Added while probing: O2 holds for every Pop site (several sites per class are allowed); O3 Pop advances tail by exactly one node (tail.next, once per call) and returns that node's value. O4 = C13.F5 (a compressed frame keeps the receive-queue selector of the frame it wraps). O5 the one-shot priority / importance a process lends itself for one send (SendWithPriority, SendImportant, CallWithPriority, CallImportant) is put back on every path, also when the send fails. O6 = C13.F7. O7 a frame writer replaces the sender's order byte by 0 only on a branch that tests options.KeepNetworkOrder and nothing else (an important message must not overtake the plain ones its sender sent before). O8 no function that assigns the send priority of a process is reachable from the sending methods of its meta processes (they run in other goroutines: SendWithPriority's temporary assignment would change the priority of what the process itself sends at that moment).",
 		NotDecided: []string{
 			"FIFO of the lock-free MPSC algorithm under concurrent producers (only who-writes-what is decided)",
 			"fairness between priority classes",
@@ -51,6 +51,8 @@ func runC03(p *load.Program, r *core.Report) {
 	c03TemporaryOverride(a, r)
 	// O6 = C13.F7: "whichever addressing mode was used" also over the network
 	c13SelectorAgreementAs(a.P, r, "C03.O6 receive-queue-selector-agrees-across-addressing-modes")
+	orderClearedOnlyByOption(a.P, r, "C03.O7 order-byte-cleared-only-by-KeepNetworkOrder", "C03.O7", 15)
+	metaKeepsParentPriority(a, r)
 }
 
 // c03TemporaryOverride: O5 — SendWithPriority / SendImportant (and their Call twins) lend the process a
